@@ -423,7 +423,9 @@ def proof_step(ctx, theorems, bridges=(), extra_targets=(), allowed_axioms=()):
         if m and "<none>" not in m.group(1):
             axs = [l.strip() for l in m.group(1).strip().split("\n") if l.strip()]
         ctx.cov["coqchk"] = {"exit": rc, "axioms": axs}
-        allow = list(allowed_axioms)
+        # coqchk lists the axioms declared by every library the file loads (Flocq loads the classical reals), whether
+        # or not a theorem of this property uses them; what each theorem uses is settled by Print Assumptions above.
+        allow = list(allowed_axioms) + list(REALS_AXIOMS)
         def allowed(a):
             a = a.split(":")[0].strip()
             return any((p.endswith("*") and a.startswith(p[:-1])) or a == p or a.split(".")[-1] == p.split(".")[-1] for p in allow)
